@@ -27,8 +27,8 @@ package repository_test
 
 import (
 	"context"
-	"os"
 	"fmt"
+	"os"
 	"strings"
 	"testing"
 	"time"
@@ -105,6 +105,9 @@ func TestVerif_C13(t *testing.T) {
 					},
 				}
 				be.Observe = func(op *gatebe.Op, ans string, err error) {
+					if op.Kind == "Remove" && ans == "cancelled" {
+						st.removeFailed = true // stalled beyond the 1-minute grace period of unlock and given up
+					}
 					if ans == "err" {
 						if !st.down {
 							st.faults++
